@@ -557,6 +557,15 @@ func (ex *Explorer) killByStore(st *State, addr ssa.Value) {
 			delete(st.live, k)
 		}
 	}
+	// locals holding a copy of memory that is being overwritten keep the old value: mark the snapshot
+	for k, ce := range st.store {
+		if strings.HasPrefix(ce.S, "stale(") {
+			continue
+		}
+		if c.S == ce.S || strings.HasPrefix(c.S, ce.S+".") || strings.HasPrefix(c.S, ce.S+"[") {
+			st.store[k] = &CE{S: "stale(" + ce.S + ")", Deps: ce.Deps, Reads: ce.Reads, V: ce.V, V0: ce.V0}
+		}
+	}
 }
 
 // killByCall drops live facts (and tracked local values) that an impure call
@@ -794,7 +803,9 @@ func (ex *Explorer) enter(st *State, pred, b *ssa.BasicBlock) {
 		if ex.Hooks.BackEdge != nil {
 			ex.Hooks.BackEdge(st, pred, b)
 		}
+		carry := ex.carryNil(st, pred, b)
 		ex.forgetLoop(st, b)
+		ex.applyCarry(st, carry)
 		return
 	}
 	if pred == nil {
@@ -823,7 +834,9 @@ func (ex *Explorer) enter(st *State, pred, b *ssa.BasicBlock) {
 		// entering a loop from outside: facts about loop-defined values from a
 		// previous execution of the whole loop are stale; header phis stay
 		// opaque (they stand for "the value in some iteration")
+		carry := ex.carryNil(st, pred, b)
 		ex.forgetLoop(st, b)
+		ex.applyCarry(st, carry)
 		return
 	}
 	for p, i := range res {
@@ -1198,4 +1211,40 @@ func writesThroughParam(fn *ssa.Function, i int, depth int) bool {
 		wtpMemo[k] = 0
 	}
 	return res
+}
+
+// carryNil computes, for the (opaque) phis of a loop header entered from pred,
+// what is known about the nil-ness of the incoming values; the facts are
+// re-established for the phi after the iteration's facts were forgotten.
+func (ex *Explorer) carryNil(st *State, pred, b *ssa.BasicBlock) map[*ssa.Phi]int {
+	idx := -1
+	for i, p := range b.Preds {
+		if p == pred {
+			idx = i
+		}
+	}
+	out := map[*ssa.Phi]int{}
+	if idx < 0 {
+		return out
+	}
+	for _, in := range b.Instrs {
+		p, ok := in.(*ssa.Phi)
+		if !ok {
+			break
+		}
+		if !pointerLikeOrNilable(p.Type()) {
+			continue
+		}
+		if n, _ := ex.NilState(st, p.Edges[idx]); n >= 0 {
+			out[p] = n
+		}
+	}
+	return out
+}
+
+func (ex *Explorer) applyCarry(st *State, carry map[*ssa.Phi]int) {
+	for p, n := range carry {
+		x := "φ" + p.Name()
+		st.live["nil:"+x] = &Fact{Kind: "nil", X: x, Val: n == 1, Deps: map[ssa.Value]bool{p: true}, Epoch: st.epoch}
+	}
 }
